@@ -74,3 +74,22 @@ package assertiontree
 //@ loop 0 invariant scanned-prefix (let ((n (as node *ast.AssignStmt))) (and (<= -1 rangeindex) (< rangeindex (len (. n Lhs)))
 //@    (= assignsOne (exists ((k Int)) (and (<= 0 k) (<= k rangeindex) (lhsIs rootNode n k one))))
 //@    (= assignsOther (exists ((k Int)) (and (<= 0 k) (<= k rangeindex) (lhsIs rootNode n k other))))))
+
+//@ -- C19 (attribution): however the comparison is written, the conclusion of a matcher goes to the right branch.
+//@ -- For the last matcher applied: it was called on the operands in order (X, Y) or swapped (Y, X) for the base
+//@ -- operator `op` of the checker; what it returned as (T, F) is what holds where `x' op y'` is true / false.
+//@ -- AddNilCheck's result is (T, F) when the written comparison means the same as `x' op y'` for all operand values,
+//@ -- and (F, T) when it means the negation - in every case in which a non-noop result is returned from the loop.
+//@ func AddNilCheck
+//@ prop C19 C02
+//@ modifies *
+//@ ghost dyncalls-pure
+//@ ensures conclusion-attributed-to-the-right-branch (=> (and (not isNoop) (> (dyn count) 0) (not (= (. (local binExpr) X) (. (local binExpr) Y))))
+//@    (let ((op (. (local check) op)) (bop (. (local binExpr) Op)) (swapped (= (dyn last arg 0) (. (local binExpr) Y))))
+//@      (and (isCmp op)
+//@           (or (= (dyn last arg 0) (. (local binExpr) X)) (= (dyn last arg 0) (. (local binExpr) Y)))
+//@           (= (dyn last arg 1) (ite swapped (. (local binExpr) X) (. (local binExpr) Y)))
+//@           (or (and (forall ((a Int) (b Int)) (= (holds bop a b) (ite swapped (holds op b a) (holds op a b))))
+//@                    (= trueCheck (dyn last res 0)) (= falseCheck (dyn last res 1)))
+//@               (and (forall ((a Int) (b Int)) (= (holds bop a b) (not (ite swapped (holds op b a) (holds op a b)))))
+//@                    (= trueCheck (dyn last res 1)) (= falseCheck (dyn last res 0)))))))
